@@ -174,6 +174,7 @@ package controller
 //@   props C09
 //@   requires *f != nil && fans.fanWF(*fan) && same((*f).fan, *fan) && *ctx != nil
 //@   requires configuration.CurrentConfig.RpmRollingWindowSize >= 1 && configuration.CurrentConfig.RpmRollingWindowSize <= 1000000000
+//@   ensures[C09.nilerr] result == nil
 //@   modifies anything
 //@   loop 1 ""
 //@     invariant *f != nil && fans.fanWF(*fan) && same((*f).fan, *fan) && *ctx != nil && tick != nil
@@ -182,12 +183,22 @@ package controller
 //@   props C03 C09
 //@   requires *f != nil && ctrlInv(*f) && mapInv(*f) && same((*f).fan, *fan) && *ctx != nil
 //@   ensures[C03.restored] *f in restored
+//@   ensures[C09.nilerr] result == nil
 //@   modifies anything
 //@   loop 1 ""
 //@     invariant *f != nil && *f == old(*f) && *ctx != nil && tick != nil
 //@     invariant same((*f).fan, *fan)
 //@     invariant ctrlInv(*f)
 //@     invariant mapInv(*f)
+
+// The interrupt function of the control actor exits the process (ui.Fatal) when it is handed an error. oklog/run hands
+// every interrupt function the value returned by the first actor that finished; both actors of this group return nil
+// (C09.nilerr above), so the precondition below is what run.Group guarantees (assumed contract of the library).
+//@ func (*DefaultFanController).Run$4
+//@   params (err)
+//@   props C09
+//@   requires[C09.interrupt] err == nil
+//@   modifies nothing
 
 // ---- start-up: stored characterisation is reused (C15) ------------------------------------------------------
 // The C15 check claims nothing about panics during start-up (C09 covers the regulation loop), and the
